@@ -6,9 +6,12 @@ CONSTANTS
  ArrayLens = {0, 1, 2, 3}
  NVals = 3
  MaxOps = 3
+ PoolTypeSeqs <- PoolsNone
+ PoolLens <- LensNone
+ PoolSetIdx = {}
  KeepHist = TRUE
 VIEW View
 ACTION_CONSTRAINT Emit
-INVARIANTS TypeOK LengthOK ReadBack
-PROPERTIES AppendOnly OrderOnlyLater
+INVARIANTS TypeOK LengthOK ReadBack WrittenObjectIntact
+PROPERTIES AppendOnly OrderOnlyLater InputsUntouched
 CHECK_DEADLOCK FALSE
